@@ -627,7 +627,7 @@ func (d *Data) NewLabels(geom dvid.Geometry, img interface{}) (*Labels, error) {
 			return nil, fmt.Errorf("Illegal geometry requested: %s", geom)
 		}
 		requestSize := int64(bytesPerVoxel) * numVoxels
-		if requestSize > server.MaxDataRequest {
+		if requestSize <= 0 || requestSize > server.MaxDataRequest {
 			return nil, fmt.Errorf("Requested payload (%d bytes) exceeds this DVID server's set limit (%d)",
 				requestSize, server.MaxDataRequest)
 		}
